@@ -1,6 +1,6 @@
 #!/venv/bin/python
 """Re-run the checks against every confirmed seeded change in /verif/seeded under the given seeds (detection must not
-depend on the seed).  usage: tools/seed_rerun.py [seed ...]   Scratch worktrees under /tmp, removed afterwards."""
+depend on the seed).  usage: tools/seed_rerun.py [seed ...] [--only=C05,C07_agent3]   Scratch worktrees under /tmp, removed afterwards."""
 import glob
 import json
 import os
@@ -8,11 +8,17 @@ import subprocess
 import sys
 
 VERIF = os.path.dirname(os.path.dirname(os.path.abspath(__file__)))
-seeds = [int(x) for x in sys.argv[1:]] or [1]
+seeds = [int(x) for x in sys.argv[1:] if not x.startswith('--')] or [1]
+only = [x[7:].split(',') for x in sys.argv[1:] if x.startswith('--only=')]
+only = only[0] if only else None
 bad = 0
 for meta in sorted(glob.glob(os.path.join(VERIF, 'seeded', '*', 'meta.json'))):
     m = json.load(open(meta))
     d = os.path.dirname(meta)
+    if only and not any(m['name'].startswith(o) for o in only):
+        continue
+    if not m.get('confirmed', True):
+        continue
     wt = '/tmp/sr_%s' % m['name']
     subprocess.run('git -C /repo worktree remove --force %s' % wt, shell=True, capture_output=True)
     subprocess.run('git -C /repo worktree add -q %s HEAD' % wt, shell=True, check=True)
